@@ -1,7 +1,7 @@
 (* C03 — TT-SVD (svd, svd_matrix, matrix_skeleton, full_matrix).  Only statements, each closed by [exact]. *)
 From Coq Require Import List Arith Lia PeanoNat ZArith Reals.
 From TV Require Import Num.Ops Lin.Tab Lin.BigSum Lin.Mat TT.Chain Model.ActOne Model.Svd Model.SvdMatrix
-  Proofs.SvdP Proofs.SvdP2 Proofs.SvdP3 Proofs.SvdP4 Proofs.SvdP5 Proofs.SvdP6 Proofs.SvdP7.
+  Proofs.SvdP Proofs.SvdP2 Proofs.SvdP3 Proofs.SvdP4 Proofs.SvdP5 Proofs.SvdP6 Proofs.SvdP7 Proofs.SvdP8 Proofs.SvdP9.
 Import ListNotations.
 
 (* ---- shape and ranks ----
@@ -111,6 +111,74 @@ Proof. exact svd_exact. Qed.
 Theorem C03_svd_exact_e0 : forall svdo (e : R) rcap ns k0 Zm q, e = 0%R ->
   calls_ok OR svdo e rcap k0 Zm q ns -> cap_free svdo e rcap k0 Zm q ns -> tails OR svdo e rcap k0 Zm q ns = 0%R.
 Proof. exact tails_zero. Qed.
+
+(* ---- exact ranks ----
+   the rank rule on a spectrum with rho positive entries followed by zeros, budget below the positive part, cap >= rho:
+   exactly rho is chosen and the cap does not bind *)
+Theorem C03_rank_select_exact : forall (x : list R) (e2 : R) rcap rho, 1 <= rho <= length x -> (0 <= e2)%R ->
+  (forall i, i < rho -> (e2 < nth i x 0)%R) -> (forall i, rho <= i -> nth i x 0%R = 0%R) -> (Z.of_nat rho <= rcap)%Z ->
+  rank_select OR x e2 rcap = rho /\ cap_free_at x e2 rcap.
+Proof. exact rank_select_exact. Qed.
+(* along a whole run: if every factorised matrix has an exact-rank spectrum (oracle clause s_i > 0 <-> i < rho_k),
+   e lies below the positive singular values and the cap is >= rho_k, then the returned TT-ranks are exactly the
+   rho_k, nothing of non-zero energy is discarded and the cap never binds.  The FIRST factorised matrix is the first
+   unfolding of the input itself (C03_first_unfolding), so for the first bond rho_1 is the rank of the input's
+   unfolding; for later bonds rho_k refers to the matrix factorised at step k (see CLAIM). *)
+Theorem C03_svd_exact_ranks : forall svdo (e : R) rcap ns rhos k0 Zm q, ns <> [] ->
+  exact_run svdo e rcap rhos k0 Zm q ns ->
+  map (@cr2 R) (svd_loop OR svdo k0 Zm q ns e rcap) = rhos ++ [1] /\
+  tails OR svdo e rcap k0 Zm q ns = 0%R /\ cap_free svdo e rcap k0 Zm q ns.
+Proof. exact exact_run_ranks. Qed.
+Theorem C03_first_unfolding : forall (T : Type) (K : ops T) (data : list T) n1 N i p, 0 < n1 -> i < n1 -> p < N ->
+  mget K (step_mat K (mkmat 1 (n1 * N) (fun _ j => nth j data (o0 K))) 1 n1) i p = nth (i * N + p) data (o0 K).
+Proof.
+  intros T K data n1 N i p H1 Hi Hp.
+  pose proof (step_mat_get K (mkmat 1 (n1 * N) (fun _ j => nth j data (o0 K))) 1 n1 N 0 i p eq_refl eq_refl) as E.
+  cbn [Nat.mul Nat.add] in E. rewrite E by lia. rewrite mget_mk by nia. reflexivity.
+Qed.
+
+(* ---- rel = True: the same two statements with e replaced by e * s_0 (s_0 > 0) ---- *)
+Theorem C03_rel_tail : forall (s : list R) (e : R) rcap, 1 <= length s -> (0 < nth 0 s 0)%R ->
+  cap_free_at (rel_weights s) (e * e)%R rcap ->
+  (tail OR s (skel_rank OR s e rcap true) <= (e * nth 0 s 0) * (e * nth 0 s 0))%R.
+Proof. exact rel_tail. Qed.
+Theorem C03_rel_minimal : forall (s : list R) (e : R) rcap q', (0 < nth 0 s 0)%R ->
+  cap_free_at (rel_weights s) (e * e)%R rcap ->
+  q' < skel_rank OR s e rcap true -> 1 < skel_rank OR s e rcap true ->
+  ((e * nth 0 s 0) * (e * nth 0 s 0) < tail OR s q')%R.
+Proof. exact rel_minimal. Qed.
+(* s_0 = 0: the code computes 0/0 = NaN and every comparison with NaN is false; for ANY carrier, if no comparison of
+   the cumulative sums succeeds then no rank is cut: q = max(1, min(int r, len)) *)
+Theorem C03_rank_select_nocut : forall (T : Type) (K : ops T) x e2 rcap,
+  (forall j, j < length x -> oleb K (nth j (cumsum K (rev x)) (o0 K)) e2 = false) ->
+  rank_select K x e2 rcap = Z.to_nat (Z.max 1 (Z.min rcap (Z.of_nat (length x)))).
+Proof. exact @rank_select_nocut. Qed.
+
+(* ---- malformed inputs of the matrix variant: what raises, and what comes back otherwise ---- *)
+Theorem C03_svd_matrix_rej_empty : forall (T : Type) (K : ops T) svdo Y e rcap, mr Y = 0 ->
+  svd_matrix K svdo Y e rcap = Err OtherError.
+Proof. exact @svd_matrix_rej_empty. Qed.
+Theorem C03_svd_matrix_rej_1x1 : forall (T : Type) (K : ops T) svdo Y e rcap, mr Y = 1 -> mc Y = 1 ->
+  svd_matrix K svdo Y e rcap = Err IndexError.
+Proof. exact @svd_matrix_rej_1x1. Qed.
+Theorem C03_svd_matrix_rej_shape : forall (T : Type) (K : ops T) svdo Y e rcap, 0 < mr Y ->
+  (forall q, ~ (mr Y = 2 ^ q /\ mc Y = 2 ^ q)) -> svd_matrix K svdo Y e rcap = Err ValueError.
+Proof. exact @svd_matrix_rej_shape. Qed.
+Theorem C03_svd_matrix_wf : forall (T : Type) (K : ops T) svdo Y e rcap Yt, svd_matrix K svdo Y e rcap = Ok Yt ->
+  exists q, 1 <= q /\ mr Y = 2 ^ q /\ mc Y = 2 ^ q /\ length Yt = q /\
+    chain 1 Yt 1 /\ shape Yt = repeat 4 q /\ Forall (fun G => 1 <= cr2 G <= capn rcap) Yt.
+Proof. exact @svd_matrix_wf. Qed.
+Theorem C03_full_matrix_rej_empty : forall (T : Type) (K : ops T) o, full_matrix K (@nil (core T)) o = Err IndexError.
+Proof. exact @full_matrix_rej_empty. Qed.
+Theorem C03_full_matrix_rej_size : forall (T : Type) (K : ops T) G0 Y' o, cr1 G0 = 1 -> cr2 (last (G0 :: Y') G0) = 1 ->
+  prodn (map cn (G0 :: Y')) <> 4 ^ length (G0 :: Y') -> full_matrix K (G0 :: Y') o = Err ValueError.
+Proof. exact @full_matrix_rej_size. Qed.
+Theorem C03_full_matrix_rej_boundary : forall (T : Type) (K : ops T) G0 Y' o,
+  cr1 G0 <> 1 \/ cr2 (last (G0 :: Y') G0) <> 1 -> full_matrix K (G0 :: Y') o = Err ValueError.
+Proof. exact @full_matrix_rej_boundary. Qed.
+Theorem C03_full_matrix_wf : forall (T : Type) (K : ops T) Y o M, full_matrix K Y o = Ok M ->
+  Y <> [] /\ mr M = 2 ^ length Y /\ mc M = 2 ^ length Y /\ prodn (map cn Y) = 4 ^ length Y.
+Proof. exact @full_matrix_wf. Qed.
 
 (* ---- the matrix variant: index interleaving and its inverse, every q ---- *)
 Theorem C03_interleave_get : forall (T : Type) (K : ops T) q Y i j, i < 2 ^ q -> j < 2 ^ q ->
